@@ -100,6 +100,27 @@ def depth_doc(k, n, quad_cap=3000):
         # the same with indentation: the text between elements is a tag of the retry loop too
         m = min(n, 90)
         return r("<svg>" + "\n <g>\n  " * m + '<rect xy="#nowhere|h" wh="1"/>' + "\n </g>\n" * m + "</svg>")
+    if k == "retry-nested-tail":
+        # a failing container with a sibling AFTER it, at every level: the sibling's success
+        # must not make the failed container before it worth another attempt
+        m = min(n, 90)
+        return r("<svg>" + "<g>" * m + '<rect xy="#nowhere|h" wh="1"/>' + '</g><rect wh="1"/>' * m + "</svg>")
+    if k == "clip-cycle":
+        # clip paths that clip one another (a cycle of length 1 + n mod 4); the clipped shape's box is asked for
+        m = 1 + n % 4
+        cps = "".join(f'<clipPath id="cp{i}" clip-path="url(#cp{(i + 1) % m})"><rect wh="3"/></clipPath>' for i in range(m))
+        return r(f'<svg><defs>{cps}</defs><rect id="a" wh="5" clip-path="url(#cp0)"/><rect xy="#a|h" wh="1"/></svg>')
+    if k == "clip-chain":
+        m = min(n, 2000)
+        cps = '<clipPath id="cp0"><rect wh="3"/></clipPath>' + "".join(
+            f'<clipPath id="cp{i + 1}" clip-path="url(#cp{i})"><rect wh="{3 + i % 3}"/></clipPath>' for i in range(m))
+        return r(f'<svg><defs>{cps}</defs><rect id="a" wh="5" clip-path="url(#cp{m})"/><rect xy="#a|h" wh="1"/></svg>')
+    if k == "var-chain-fwd":
+        # each variable is defined by the NEXT one (nothing is substituted when it is assigned):
+        # reading the first evaluates the whole chain recursively
+        m = min(n, 5000)
+        return r("<svg>" + "".join(f'<var w{i}="$w{i + 1}"/>' for i in range(m)) + f'<var w{m}="1"/>'
+                 + '<rect wh="{{$w0 + 1}}"/><rect wh="1" data-v="$w0"/><if test="$w0"><rect wh="1"/></if></svg>')
     if k == "retry-siblings":
         # many failing containers side by side: none of them may keep the others retrying
         m = min(n, 400)
